@@ -101,7 +101,7 @@ func between(s, a, b string) string {
 
 func init() {
 	register(Suite{Name: "c13-concurrent", Property: "C13",
-		Rule: "2..64 goroutines send distinct messages through one Client: (a) Send on one shared established connection, (b) DialAndSend with a connection per call, (c) both at the same time on one Client, with every fourth DialAndSend message refused at end-of-data; the scripted server adds random latency to vary the schedule; per-connection transcripts are judged for transaction contiguity and envelope/content pairing, every message must be delivered exactly once; run under the race detector; distinct by (mode, goroutines, seed)",
+		Rule: "2..64 goroutines send distinct messages through one Client: (a) Send on one shared established connection, (b) DialAndSend with a connection per call, (c) both at the same time on one Client, with every fourth message (a DialAndSend one) refused at end-of-data and every fourth having its recipient refused; the scripted server adds random latency to vary the schedule; per-connection transcripts are judged for transaction contiguity and envelope/content pairing, every message must be delivered exactly once; run under the race detector; distinct by (mode, goroutines, seed)",
 		Run: func(c *Ctx) {
 			rounds := c.N(24, 400)
 			for round := 0; round < rounds; round++ {
@@ -112,6 +112,9 @@ func init() {
 				jitter := r.Intn(3)
 				// mixed mode: every DialAndSend message with index = 1 (mod 4) is refused at end-of-data
 				refused := func(i int) bool { return mode == 2 && i%2 == 1 && i%4 == 1 }
+				// ... and every DialAndSend message with index = 3 (mod 4) has its only recipient refused: the
+				// transaction is abandoned (RSET) on ITS connection, nobody else's
+				rcptRefused := func(i int) bool { return mode == 2 && i%4 == 3 }
 				var mu sync.Mutex
 				var servers []*RefServer
 				// every second set of three rounds authenticates (a multi-step mechanism: one dialogue per dial)
@@ -144,6 +147,9 @@ func init() {
 						}
 						if verb == "eod" && cur >= 0 && refused(cur) {
 							return SrvAction{Kind: "reply", Code: 554, Text: "5.6.0 content refused"}, true
+						}
+						if verb == "RCPT" && cur >= 0 && rcptRefused(cur) {
+							return SrvAction{Kind: "reply", Code: 550, Text: "5.1.1 no such user"}, true
 						}
 						return SrvAction{}, false
 					}
@@ -213,6 +219,12 @@ func init() {
 				}
 				mu.Unlock()
 				for i := 0; i < n; i++ {
+					if rcptRefused(i) {
+						if errs[i] == nil || msgs[i].IsDelivered() || seen[i] != 0 {
+							c.Violate("c13-refusal-lost", fmt.Sprintf("the recipient of message %d was refused but the call returned %v, delivered=%v, end-of-data reached %d times", i, errs[i], msgs[i].IsDelivered(), seen[i]), in)
+						}
+						continue
+					}
 					if refused(i) {
 						// refused at end-of-data: an error for exactly this message, nothing delivered, nobody else disturbed
 						if errs[i] == nil || msgs[i].IsDelivered() {
